@@ -59,4 +59,12 @@ ASSUME = [
     "worker closures: check_block sets the local queue to an arbitrary length, HasDiscoveries::matches returns an arbitrary bool, atomic loads arbitrary values, JobBroker::pop an arbitrary batch, split_and_push leaves an arbitrary part of the queue; any other callee that is handed neither the broker nor a queue returns an arbitrary value of its type and cannot reach them (both are owned by the closure); a callee that is handed one and has no model makes the check inconclusive",
 ]
 
+ASSUME.append("C06/C13/C17(runtime loop)/spawn(): values returned by the tracked calls are distinct opaque objects and every projection or indexing of an opaque object is a distinct opaque object with recorded provenance; 'the same object' means equal provenance on the path; enum-variant aggregates are tracked by variant name and a path that views a value as another variant is pruned as infeasible")
+
+TECHNIQUE = {
+    "C05": "symbolic execution of the compiler's MIR into SMT (mirsym + z3): bounded model checking over worker schedules, an inductive invariant, and per-path obligations on the worker closures",
+    "C06": "symbolic execution of the compiler's MIR (mirsym) with arbitrary callees and object identity by provenance; per-path obligations, path feasibility decided by z3",
+    "C12": "symbolic execution of the compiler's MIR into SMT (mirsym + z3): per-path obligations on the timeout thread, the worker closures, one job of check_block and spawn(), symbolic clock / depths / limits",
+    "C13": "symbolic execution of the compiler's MIR into SMT (mirsym + z3): per-path obligations on one job of bfs.rs check_block, spawn() and the single-worker broker summaries, composed by a z3-checked inductive step",
+}
 
